@@ -237,14 +237,19 @@ Record TShape (g : tgraph) : Prop := {
   s_nd_downs : forall i, alive g i -> NoDup (t_downs (tget g i));
   s_down : forall u d, alive g u -> In d (t_downs (tget g u)) -> alive g d /\ In u (t_ups (tget g d));
   s_up : forall u d, alive g d -> In u (t_ups (tget g d)) -> alive g u /\ In d (t_downs (tget g u));
+  s_trig : forall d t, alive g d -> tk (tget g d) = TCombineOn t -> alive g t;   (* emit_on holds its stream *)
 }.
 
 Definition keys (nd : tnode) : list nat := map fst (t_bufs nd).
 
 (* per-node state of the combining nodes is aligned with the current inputs *)
+Definition is_comb (k : tkind) : bool := match k with TCombine | TCombineOn _ => true | _ => false end.
 Definition ndata (nd : tnode) : Prop :=
-  (tk nd = TCombine -> length (t_last nd) = length (t_ups nd)) /\
+  (is_comb (tk nd) = true -> length (t_last nd) = length (t_ups nd)) /\
   (tk nd = TZip -> NoDup (keys nd) /\ forall u, In u (keys nd) <-> In u (t_ups nd)).
+Ltac nocomb :=
+  let H := fresh "HC" in
+  intros H; exfalso; simpl in H; match goal with K : tk _ = _ |- _ => rewrite K in H; discriminate H end.
 Definition nnw (nd : tnode) : Prop := tk nd = TZip -> zip_ready nd = false.
 
 Definition TData (g : tgraph) : Prop := forall i, alive g i -> ndata (tget g i).
@@ -304,8 +309,8 @@ Proof. intros F. unfold alive. rewrite (fr_alive _ _ _ F). tauto. Qed.
 
 Lemma TShape_frame g g' : frame g g' -> TShape g -> TShape g'.
 Proof.
-  intros F [A B C D E]. constructor; unfold alive in *; intros *;
-    rewrite ?(fr_alive _ _ _ F), ?(fr_ups _ _ _ F), ?(fr_downs _ _ _ F); eauto.
+  intros F [A B C D E T]. constructor; unfold alive in *; intros *;
+    rewrite ?(fr_alive _ _ _ F), ?(fr_ups _ _ _ F), ?(fr_downs _ _ _ F), ?(fr_tk _ _ _ F); eauto.
 Qed.
 
 (* a node update that keeps the shape and re-establishes the node-level data invariant *)
@@ -346,7 +351,7 @@ Definition estep (f : nat) (n : nat) (x : val) (acc : tgraph * list tdeliv) (d :
   let log := log ++ [(n, d, x)] in
   match tk nd with
   | TPipe => let '(g', l') := temit f g d x in (g', log ++ l')
-  | TSink => (g, log)
+  | TSink | TRSink => (g, log)
   | TZip =>
       let L := buf_get n (t_bufs nd) ++ [x] in
       let nd1 := with_bufs nd (buf_set n L (t_bufs nd)) in
@@ -360,6 +365,13 @@ Definition estep (f : nat) (n : nat) (x : val) (acc : tgraph * list tdeliv) (d :
       let g1 := tset g d (with_last nd last') in
       match all_some_v last' with
       | Some vs => let '(g', l') := temit f g1 d (VTup vs) in (g', log ++ l')
+      | None => (g1, log)
+      end
+  | TCombineOn t =>
+      let last' := set_at (index_nat n (t_ups nd)) (Some x) (t_last nd) in
+      let g1 := tset g d (with_last nd last') in
+      match all_some_v last' with
+      | Some vs => if n =? t then let '(g', l') := temit f g1 d (VTup vs) in (g', log ++ l') else (g1, log)
       | None => (g1, log)
       end
   end.
@@ -471,7 +483,7 @@ Proof.
       apply (rec_glue f g n x d (VTup (zip_heads nd1)) (tset ga d (zip_pop nd1)) la g' l2); auto.
       apply epost_tset; auto.
       * unfold same_shape; simpl; auto 10.
-      * intros _. split; simpl; [fold nd; congruence|]. intros _. unfold keys. simpl.
+      * intros _. split; simpl; [fold nd; nocomb|]. intros _. unfold keys. simpl.
         change (fun kb : nat * list val => (fst kb, tl (snd kb))) with popf.
         rewrite keys_pop, Keq. auto.
       * intros _ _. apply zip_ready_false. right. exists n. split; [exact Hupa|].
@@ -481,7 +493,7 @@ Proof.
         rewrite app_length in C1. simpl in C1. lia.
     + inversion E; subst. apply no_rec_glue; auto. apply epost_tset; auto.
       * unfold same_shape; simpl; auto 10.
-      * intros _. split; simpl; [fold nd; congruence|]. intros _. unfold keys. simpl. rewrite Keq. auto.
+      * intros _. split; simpl; [fold nd; nocomb|]. intros _. unfold keys. simpl. rewrite Keq. auto.
       * intros _ _. apply andb_false_iff in C. destruct C as [C|C]; auto.
         apply Nat.eqb_neq in C.
         assert (Hold : buf_get n (t_bufs nd) <> []).
@@ -497,12 +509,28 @@ Proof.
     { apply epost_tset; auto.
       - unfold same_shape; simpl; auto 10.
       - intros _. split; simpl; [|fold nd; congruence]. intros _. unfold last'. rewrite set_at_length.
-        destruct (Da d Ada) as (Hc & _). apply Hc; auto.
+        destruct (Da d Ada) as (Hc & _). apply Hc; auto. fold nd. rewrite K. reflexivity.
       - intros _ K'. simpl in K'. fold nd in K'. congruence. }
     destruct (all_some_v last') as [vs|].
     + destruct (temit f (tset ga d (with_last nd last')) d (VTup vs)) as [g2 l2] eqn:E2.
       inversion E; subst.
       apply (rec_glue f g n x d (VTup vs) (tset ga d (with_last nd last')) la g' l2); auto.
+    + inversion E; subst. apply no_rec_glue; auto.
+  - inversion E; subst. apply no_rec_glue; auto.
+  - (* combine_latest with an explicit emit_on *)
+    set (nd := tget ga d) in *.
+    set (last' := set_at (index_nat n (t_ups nd)) (Some x) (t_last nd)) in *.
+    assert (P1 : epost g n (tset ga d (with_last nd last')) la).
+    { apply epost_tset; auto.
+      - unfold same_shape; simpl; auto 10.
+      - intros _. split; simpl; [|fold nd; congruence]. intros _. unfold last'. rewrite set_at_length.
+        destruct (Da d Ada) as (Hc & _). apply Hc; auto. fold nd. rewrite K. reflexivity.
+      - intros _ K'. simpl in K'. fold nd in K'. congruence. }
+    destruct (all_some_v last') as [vs|]; [destruct (n =? trig)|].
+    + destruct (temit f (tset ga d (with_last nd last')) d (VTup vs)) as [g2 l2] eqn:E2.
+      inversion E; subst.
+      apply (rec_glue f g n x d (VTup vs) (tset ga d (with_last nd last')) la g' l2); auto.
+    + inversion E; subst. apply no_rec_glue; auto.
     + inversion E; subst. apply no_rec_glue; auto.
 Qed.
 
@@ -587,9 +615,10 @@ Lemma TShape_add g g' (R : nat -> nat -> Prop) :
   (forall a b, R a b -> alive g' a /\ alive g' b /\ a < b) ->
   (forall i, alive g' i -> NoDup (t_ups (tget g' i))) ->
   (forall i, alive g' i -> NoDup (t_downs (tget g' i))) ->
+  (forall d t, alive g' d -> tk (tget g' d) = TCombineOn t -> alive g' t) ->
   TShape g'.
 Proof.
-  intros [A B C D E] Hd Hu Hal HR N1 N2. constructor; auto.
+  intros [A B C D E T] Hd Hu Hal HR N1 N2 HT. constructor; auto.
   - intros d u Ad Hi. apply Hu in Hi; auto. destruct Hi as [[Ad0 Hi]|Hi]; eauto. apply HR in Hi. tauto.
   - intros u d Au Hi. apply Hd in Hi; auto. destruct Hi as [[Au0 Hi]|Hi].
     + destruct (D _ _ Au0 Hi) as (Ad0 & Hi'). split; auto. apply Hu; auto.
@@ -607,11 +636,12 @@ Lemma TShape_del g g' u d :
   (forall a b, alive g b -> (In a (t_ups (tget g' b)) <-> In a (t_ups (tget g b)) /\ ~ (a = u /\ b = d))) ->
   (forall i, alive g i -> NoDup (t_ups (tget g' i))) ->
   (forall i, alive g i -> NoDup (t_downs (tget g' i))) ->
+  (forall i, tk (tget g' i) = tk (tget g i)) ->
   TShape g'.
 Proof.
-  intros [A B C D E] Hal Hd Hu N1 N2.
+  intros [A B C D E T] Hal Hd Hu N1 N2 HK.
   assert (AL : forall i, alive g' i <-> alive g i) by (intros i; unfold alive; rewrite Hal; tauto).
-  constructor.
+  constructor; [| | | | |intros d0 t0 Ad Kd; apply AL; apply AL in Ad; rewrite HK in Kd; eauto].
   - intros d0 u0 Ad Hi. apply AL in Ad. apply Hu in Hi; auto. destruct Hi; eauto.
   - intros i Ai. apply AL in Ai. auto.
   - intros i Ai. apply AL in Ai. auto.
@@ -652,6 +682,8 @@ Proof.
       * apply in_app_iff; simpl; auto.
       * apply buf_get_set_eq.
   - split; [split|]; try discriminate. intros _. rewrite !app_length. simpl. rewrite Hc; auto.
+  - repeat split; intros; discriminate.
+  - split; [split|]; try discriminate. intros _. rewrite !app_length. simpl. rewrite Hc; auto.
 Qed.
 
 Lemma remove_upstream_data nd u : In u (t_ups nd) -> NoDup (t_ups nd) -> ndata nd -> ndata (remove_upstream nd u).
@@ -663,6 +695,11 @@ Proof.
     split; [discriminate|]. intros _. rewrite keys_buf_del. fold (keys nd). split.
     + apply remove_first_NoDup; auto.
     + intros v. rewrite !remove_first_In_iff; auto. rewrite Hk. tauto.
+  - split; [|discriminate]. intros _. specialize (Hc eq_refl).
+    pose proof (remove_first_length u (t_ups nd) Hn).
+    pose proof (index_nat_lt u (t_ups nd) Hn).
+    pose proof (remove_at_length (index_nat u (t_ups nd)) (t_last nd)). lia.
+  - split; intros; discriminate.
   - split; [|discriminate]. intros _. specialize (Hc eq_refl).
     pose proof (remove_first_length u (t_ups nd) Hn).
     pose proof (index_nat_lt u (t_ups nd) Hn).
@@ -724,6 +761,8 @@ Proof.
       * rewrite S2. apply (s_nd_downs _ Sh); auto.
       * simpl. apply NoDup_app_single; auto. apply (s_nd_downs _ Sh); auto.
       * apply (s_nd_downs _ Sh); auto.
+    + intros d0 t0 Ad0 Kd0. apply AL. apply AL in Ad0. destruct (FL d0) as (Kq & _). rewrite Kq in Kd0.
+      apply (s_trig _ Sh d0 t0); auto.
   - intros i Ai. apply AL in Ai. rewrite G. destruct (Nat.eq_dec i d) as [->|]; [|destruct (Nat.eq_dec i u) as [->|]].
     + apply add_upstream_data; auto. apply (s_nd_ups _ Sh); auto.
     + eapply ndata_ext; [| | | |apply (Da u Ai)]; auto.
@@ -787,6 +826,7 @@ Proof.
       * rewrite S2. apply (s_nd_downs _ Sh); auto.
       * simpl. apply remove_first_NoDup. apply (s_nd_downs _ Sh); auto.
       * apply (s_nd_downs _ Sh); auto.
+    + intros i. apply FL.
   - intros i Ai. apply AL in Ai. rewrite G. destruct (Nat.eq_dec i d) as [->|]; [|destruct (Nat.eq_dec i u) as [->|]].
     + apply remove_upstream_data; auto. apply (s_nd_ups _ Sh); auto.
     + eapply ndata_ext; [| | | |apply (Da u Ai)]; auto.
@@ -856,14 +896,15 @@ Lemma inv_ext g g' :
              t_bufs (tget g' i) = t_bufs (tget g i) /\ t_last (tget g' i) = t_last (tget g i)) ->
   TInv0 g -> TInv0 g'.
 Proof.
-  intros H [[A B C D E] Da Nw].
+  intros H [[A B C D E T] Da Nw].
   assert (AL : forall i, alive g' i <-> alive g i).
   { intros i. unfold alive. destruct (H i) as (-> & _). tauto. }
   constructor.
   - assert (Ha : forall i, t_alive (tget g' i) = t_alive (tget g i)) by (intros i; apply H).
     assert (Hu : forall i, t_ups (tget g' i) = t_ups (tget g i)) by (intros i; apply H).
     assert (Hd : forall i, t_downs (tget g' i) = t_downs (tget g i)) by (intros i; apply H).
-    constructor; unfold alive in *; intros *; rewrite ?Ha, ?Hu, ?Hd; eauto.
+    assert (Hk : forall i, tk (tget g' i) = tk (tget g i)) by (intros i; apply H).
+    constructor; unfold alive in *; intros *; rewrite ?Ha, ?Hu, ?Hd, ?Hk; eauto.
   - intros i Ai. apply AL in Ai. destruct (H i) as (_ & ? & ? & _ & ? & ?).
     eapply ndata_ext; [| | | |apply (Da i Ai)]; auto.
   - intros i Ai. apply AL in Ai. destruct (H i) as (_ & ? & ? & _ & ? & ?).
@@ -991,7 +1032,7 @@ Qed.
 Lemma new_node_data k ups : NoDup ups -> (k = TZip -> ups <> []) -> ndata (new_node k ups) /\ nnw (new_node k ups).
 Proof.
   intros Nd Ne. unfold ndata, nnw, keys. simpl. split; [split|].
-  - intros ->. apply map_length.
+  - destruct k; simpl; try discriminate; intros _; apply map_length.
   - intros ->. rewrite map_map. simpl. rewrite map_id. split; auto. tauto.
   - intros ->. apply zip_ready_false. simpl. destruct ups as [|u l]; [left; auto|].
     right. exists u. split; [left; auto|]. apply (buf_get_new u (u :: l)).
@@ -999,9 +1040,10 @@ Qed.
 
 Lemma new_inv g k ups :
   TInv0 g -> NoDup ups -> (forall u, In u ups -> alive g u) -> (k = TZip -> ups <> []) ->
+  (forall t, k = TCombineOn t -> In t ups) ->
   TInv0 (new_g g k ups).
 Proof.
-  intros [Sh Da Nw] Nd Hu Ne.
+  intros [Sh Da Nw] Nd Hu Ne Ht.
   destruct (new_g_spec g k ups Sh Nd Hu) as (L & Gn & Gu & Go).
   set (g' := new_g g k ups) in *.
   assert (Dead : ~ alive g (length g)) by (intros H; apply alive_lt in H; lia).
@@ -1038,6 +1080,10 @@ Proof.
         -- rewrite Gu by auto. simpl. apply NoDup_app_single; [apply (s_nd_downs _ Sh); auto|].
            intros H. apply (s_down _ Sh _ _ Ai) in H. destruct H as (H & _). apply alive_lt in H. lia.
         -- rewrite Go by auto. apply (s_nd_downs _ Sh); auto.
+    + intros d0 t0 Ad0 Kd0. apply AL. destruct (Nat.eq_dec d0 (length g)) as [->|N].
+      * rewrite Gn in Kd0. simpl in Kd0. left. apply Hu. apply Ht. auto.
+      * apply AL in Ad0. destruct Ad0 as [Ad0|]; [|tauto]. left. apply (s_trig _ Sh d0 t0); auto.
+        destruct (in_dec Nat.eq_dec d0 ups); [rewrite Gu in Kd0|rewrite Go in Kd0]; auto.
   - intros i Ai. destruct (Nat.eq_dec i (length g)) as [->|N].
     + rewrite Gn. apply new_node_data; auto.
     + apply AL in Ai. destruct Ai as [Ai|]; [|tauto]. destruct (in_dec Nat.eq_dec i ups).
@@ -1079,12 +1125,22 @@ Proof.
 Qed.
 
 Definition more_of (g : tgraph) (K : list nat) : list nat :=
-  flat_map (fun i => filter (fun u => negb (mem u K)) (t_ups (tget g i))) K.
+  flat_map (fun i => filter (fun u => negb (mem u K)) (t_refs (tget g i))) K.
+
+Lemma refs_ups n u : In u (t_ups n) -> In u (t_refs n).
+Proof. unfold t_refs. rewrite in_app_iff. auto. Qed.
+
+Lemma refs_alive g i u : TShape g -> alive g i -> In u (t_refs (tget g i)) -> alive g u.
+Proof.
+  intros Sh Ai H. unfold t_refs in H. apply in_app_iff in H. destruct H as [H|H].
+  - apply (s_up _ Sh _ _ Ai H).
+  - destruct (tk (tget g i)) eqn:K; simpl in H; try tauto. destruct H as [<-|[]]. apply (s_trig _ Sh i trig); auto.
+Qed.
 
 Lemma keep_S f g K : keep (S f) g K = match more_of g K with [] => K | _ => keep f g (K ++ more_of g K) end.
 Proof. reflexivity. Qed.
 
-Lemma more_of_In g K u : In u (more_of g K) <-> exists i, In i K /\ In u (t_ups (tget g i)) /\ ~ In u K.
+Lemma more_of_In g K u : In u (more_of g K) <-> exists i, In i K /\ In u (t_refs (tget g i)) /\ ~ In u K.
 Proof.
   unfold more_of. rewrite in_flat_map. split.
   - intros (i & Hi & H). apply filter_In in H. destruct H as [H1 H2]. exists i. split; auto. split; auto.
@@ -1100,7 +1156,7 @@ Proof.
 Qed.
 
 Lemma keep_pres (P : nat -> Prop) g :
-  (forall i u, P i -> In u (t_ups (tget g i)) -> P u) ->
+  (forall i u, P i -> In u (t_refs (tget g i)) -> P u) ->
   forall f K, (forall i, In i K -> P i) -> forall i, In i (keep f g K) -> P i.
 Proof.
   intros HP. induction f as [|f IH]; intros K HK i Hi; auto. rewrite keep_S in Hi.
@@ -1110,7 +1166,7 @@ Proof.
 Qed.
 
 Lemma keep_from g : forall f K i, In i (keep f g K) ->
-  In i K \/ exists j, In j (keep f g K) /\ In i (t_ups (tget g j)).
+  In i K \/ exists j, In j (keep f g K) /\ In i (t_refs (tget g j)).
 Proof.
   induction f as [|f IH]; intros K i Hi; auto. rewrite keep_S in *.
   destruct (more_of g K) eqn:E; auto. rewrite <- E in *.
@@ -1121,7 +1177,7 @@ Proof.
 Qed.
 
 Definition closed (g : tgraph) (K : list nat) : Prop :=
-  forall i u, In i K -> In u (t_ups (tget g i)) -> In u K.
+  forall i u, In i K -> In u (t_refs (tget g i)) -> In u K.
 
 Lemma more_nil_closed g K : more_of g K = [] -> closed g K.
 Proof.
@@ -1163,10 +1219,10 @@ Proof.
   - apply more_nil_closed; auto.
   - rewrite <- E. apply IH.
     + intros i Hi. apply in_app_iff in Hi. destruct Hi as [Hi|Hi]; auto.
-      apply more_of_In in Hi. destruct Hi as (j & Hj & Hu & _). apply (s_up _ Sh _ _ (HK j Hj) Hu).
+      apply more_of_In in Hi. destruct Hi as (j & Hj & Hu & _). apply (refs_alive _ _ _ Sh (HK j Hj) Hu).
     + assert (Hh : In h (more_of g K)) by (rewrite E; left; auto).
       assert (Hh' := Hh). apply more_of_In in Hh'. destruct Hh' as (j & Hj & Hu & Hn).
-      assert (Ah : alive g h) by (apply (s_up _ Sh _ _ (HK j Hj) Hu)).
+      assert (Ah : alive g h) by (apply (refs_alive _ _ _ Sh (HK j Hj) Hu)).
       assert (miss (length g) (K ++ more_of g K) < miss (length g) K); [|lia].
       unfold miss. apply filter_length_lt with (x := h).
       * intros x _ Hx. apply negb_true_iff in Hx. apply negb_true_iff.
@@ -1188,7 +1244,7 @@ Qed.
 Lemma kept_alive g : TShape g -> forall i, In i (kept g) -> alive g i.
 Proof.
   intros Sh. unfold kept. apply keep_pres.
-  - intros i u Ai Hu. apply (s_up _ Sh _ _ Ai Hu).
+  - intros i u Ai Hu. apply (refs_alive _ _ _ Sh Ai Hu).
   - intros i Hi. apply roots_In in Hi. apply is_root_alive; auto.
 Qed.
 
@@ -1244,10 +1300,12 @@ Proof.
       apply mem_spec in E2. split; [apply AL; auto|]. rewrite collect_node by auto. simpl.
       apply (s_down _ Sh u d); auto.
     + intros u d Ad Hu. apply AL in Ad. rewrite collect_node in Hu by auto. simpl in Hu.
-      assert (Ku : In u (kept g)) by (eapply Cl; eauto).
+      assert (Ku : In u (kept g)) by (eapply Cl; eauto using refs_ups).
       split; [apply AL; auto|]. rewrite collect_node by auto. simpl. apply filter_In. split.
       * apply (s_up _ Sh u d); auto.
       * apply andb_true_iff. split; [apply Ka; auto|apply mem_spec; auto].
+    + intros d t Ad Kd. apply AL in Ad. apply AL. rewrite collect_node in Kd by auto. simpl in Kd.
+      apply (Cl d t Ad). unfold t_refs. rewrite Kd. apply in_app_iff. right. left. auto.
   - intros i Ai. apply AL in Ai. rewrite collect_node by auto.
     eapply ndata_ext; [| | | |apply (Da i (Ka i Ai))]; auto.
   - intros i Ai. apply AL in Ai. rewrite collect_node by auto.
@@ -1255,24 +1313,392 @@ Proof.
 Qed.
 
 (* ================================================================================================ *)
-(* Part 5: legal histories                                                                           *)
+(* Part 4b: edits as such (shared by the top-level operations and by the reactive sink)              *)
 (* ================================================================================================ *)
 
 Definition held_node (g : tgraph) (n : nat) : Prop :=
   n < length g /\ t_alive (tget g n) = true /\ t_held (tget g n) = true.
 
-(* what a program can do, in histories without parallel edges *)
+(* what a program can do with an edit, in histories without parallel edges *)
+Definition wf_edit (g : tgraph) (e : tedit) : Prop :=
+  match e with
+  | EConnect u d =>
+      held_node g u /\ held_node g d /\ u < d /\ ~ In u (t_ups (tget g d)) /\ sinkb (tk (tget g u)) = false
+  | EDisconnect u d => held_node g u /\ held_node g d
+  | EDestroy n => held_node g n /\ ~ (sinkb (tk (tget g n)) = true /\ t_reg (tget g n) = false)
+  end.
+
+Definition destroy_g (g : tgraph) (n : nat) : tgraph :=
+  let g1 := destroy_fold g n (t_ups (tget g n)) in
+  tset g1 n (with_flags (tget g1 n) (t_held (tget g1 n)) false (t_alive (tget g1 n))).
+
+Lemma tedit0_connect g u d : tedit0 g (EConnect u d) = (connect_g g u d, ROk, []).
+Proof. reflexivity. Qed.
+Lemma tedit0_disconnect g u d :
+  tedit0 g (EDisconnect u d) =
+  if mem d (t_downs (tget g u)) then
+    let g2 := disconnect_g g u d in
+    match tk (tget g2 d) with
+    | TZip => let '(g3, l) := zip_drain (S (btotal (t_bufs (tget g2 d)))) g2 d in (g3, ROk, l)
+    | _ => (g2, ROk, [])
+    end
+  else (g, RRaise, []).
+Proof. reflexivity. Qed.
+Lemma tedit0_destroy g n : tedit0 g (EDestroy n) = (destroy_g g n, ROk, []).
+Proof. reflexivity. Qed.
+
+(* flags after an edit: only destroy un-registers, and only its own node *)
+Definition flags_edit (g g' : tgraph) (e : tedit) : Prop :=
+  length g' = length g /\
+  forall i, t_alive (tget g' i) = t_alive (tget g i) /\ tk (tget g' i) = tk (tget g i) /\
+            t_held (tget g' i) = t_held (tget g i) /\
+            (t_reg (tget g' i) = t_reg (tget g i) \/ e = EDestroy i).
+
+Lemma flags_kept_edit g g' e : flags_kept g g' -> flags_edit g g' e.
+Proof.
+  intros [L H]. split; auto. intros i. destruct (H i) as (a & b & c & d). auto.
+Qed.
+
+Lemma edit0_ok g e :
+  TInv0 g -> wf_edit g e ->
+  TInv0 (fst (fst (tedit0 g e))) /\ flags_edit g (fst (fst (tedit0 g e))) e.
+Proof.
+  intros I W. destruct e as [u d|u d|n].
+  - (* connect *)
+    rewrite tedit0_connect. cbn [fst]. destruct W as ((_ & Au & _) & (_ & Ad & _) & Lt & Hn & _).
+    destruct (connect_inv g u d I Au Ad Lt Hn). split; auto. apply flags_kept_edit; auto.
+  - (* disconnect *)
+    rewrite tedit0_disconnect. destruct W as ((_ & Au & _) & (_ & Ad & _)).
+    destruct (mem d (t_downs (tget g u))) eqn:M.
+    + apply mem_spec in M. cbv zeta. destruct I as [Sh Da Nw].
+      destruct (disconnect_raw g u d Sh Da Au Ad M) as (Sh1 & Da1 & Fl1 & Nw1 & _).
+      set (g2 := disconnect_g g u d) in *.
+      assert (Nw2 : forall i, i <> d -> alive g2 i -> nnw (tget g2 i)).
+      { intros i Ni Ai. apply Nw1; auto. apply Nw. apply (flags_kept_alive _ _ _ Fl1); auto. }
+      assert (Ad2 : alive g2 d) by (apply (flags_kept_alive _ _ _ Fl1); auto).
+      assert (NZ : tk (tget g2 d) <> TZip -> TInv0 g2 /\ flags_edit g g2 (EDisconnect u d)).
+      { intros K. split; [|apply flags_kept_edit; auto]. constructor; auto.
+        intros i Ai. destruct (Nat.eq_dec i d) as [->|]; auto. intros K'. congruence. }
+      destruct (tk (tget g2 d)) eqn:K; try (cbn [fst]; apply NZ; congruence).
+      destruct (zip_drain (S (btotal (t_bufs (tget g2 d)))) g2 d) as [g3 l] eqn:E. cbn [fst].
+      destruct (zip_drain_spec _ g2 d Sh1 Da1 Nw2 Ad2 (Nat.lt_succ_diag_r _) _ _ E) as (F & Da3 & Nw3).
+      split.
+      * constructor; auto. eapply TShape_frame; eauto.
+      * apply flags_kept_edit. eapply flags_kept_trans; eauto. apply frame_flags_kept; auto.
+    + cbn [fst]. split; auto. apply flags_kept_edit. apply flags_kept_refl.
+  - (* destroy *)
+    rewrite tedit0_destroy. cbn [fst]. destruct W as ((_ & An & Hn) & _). destruct I as [Sh Da Nw].
+    destruct (destroy_fold_spec n _ g Sh Da An eq_refl) as (Sh1 & Da1 & Fl1 & Nw1 & Up1 & _).
+    unfold destroy_g. set (g1 := destroy_fold g n (t_ups (tget g n))) in *. cbv zeta.
+    split.
+    + apply flags_inv. constructor; auto.
+      intros i Ai. destruct (Nat.eq_dec i n) as [->|N].
+      * intros _. apply zip_ready_false. auto.
+      * apply Nw1; auto. apply Nw. apply (flags_kept_alive _ _ _ Fl1); auto.
+    + destruct Fl1 as [L1 H1]. split; [rewrite tset_length; auto|]. intros i.
+      destruct (H1 i) as (a & b & c & e).
+      destruct (Nat.eq_dec n i) as [->|N].
+      * rewrite tget_tset_eq by (rewrite L1; apply alive_lt; auto). simpl. rewrite a, b, e. auto.
+      * rewrite tget_tset_neq by auto. rewrite a, b, c, e. auto.
+Qed.
+
+Lemma held_node_frame g g' n : frame g g' -> held_node g n -> held_node g' n.
+Proof.
+  intros F (L & A & H). unfold held_node. rewrite (fr_alive _ _ _ F), (fr_held _ _ _ F), <- (proj1 F). auto.
+Qed.
+
+Lemma wf_edit_frame g g' e : frame g g' -> wf_edit g e -> wf_edit g' e.
+Proof.
+  intros F W. destruct e as [u d|u d|n]; simpl in *.
+  - destruct W as (A & B & C & D & E). rewrite (fr_ups _ _ _ F), (fr_tk _ _ _ F).
+    split; [|split; [|split; [|split]]]; eauto using held_node_frame.
+  - destruct W as (A & B). split; eauto using held_node_frame.
+  - destruct W as (A & B). rewrite (fr_tk _ _ _ F), (fr_reg _ _ _ F). split; eauto using held_node_frame.
+Qed.
+
+Lemma heldb_sound g n : heldb g n = true -> held_node g n.
+Proof.
+  unfold heldb, held_node. intros H. apply andb_true_iff in H. destruct H as [H H3].
+  apply andb_true_iff in H. destruct H as [H1 H2]. apply Nat.ltb_lt in H1. auto.
+Qed.
+Lemma heldb_complete g n : held_node g n -> heldb g n = true.
+Proof.
+  unfold heldb, held_node. intros (A & B & C). rewrite B, C. apply Nat.ltb_lt in A. rewrite A. reflexivity.
+Qed.
+
+Lemma apply_edit_wf g e : wf_edit g e -> apply_edit g e = tedit0 g e.
+Proof.
+  intros W. unfold apply_edit.
+  replace (forallb (heldb g) (edit_nodes e)) with true; auto. symmetry.
+  destruct e as [u d|u d|n]; simpl in *.
+  - destruct W as (A & B & _). rewrite !heldb_complete; auto.
+  - destruct W as (A & B). rewrite !heldb_complete; auto.
+  - destruct W as (A & _). rewrite !heldb_complete; auto.
+Qed.
+
+(* ================================================================================================ *)
+(* Part 4c: an emission during which a reactive sink edits the graph                                 *)
+(* ================================================================================================ *)
+
+Definition rstep (f n : nat) (x : val) (acc : rstate) (d : nat) : rstate :=
+  let '(g, p, raised, log) := acc in
+  if raised then acc else
+  let nd := tget g d in
+  let log := log ++ [(n, d, x)] in
+  match tk nd with
+  | TPipe => let '(g', p', r', l') := rdeliver f g p d x in (g', p', r', log ++ l')
+  | TSink => (g, p, false, log)
+  | TRSink =>
+      match p with
+      | Some (t, e) =>
+          if t =? d then let '(g', _, l') := apply_edit g e in (g', None, false, log ++ l')
+          else (g, p, false, log)
+      | None => (g, p, false, log)
+      end
+  | TZip =>
+      if mem n (map fst (t_bufs nd)) then
+        let L := buf_get n (t_bufs nd) ++ [x] in
+        let nd1 := with_bufs nd (buf_set n L (t_bufs nd)) in
+        if (length L =? 1) && zip_ready nd1 then
+          let tup := VTup (zip_heads nd1) in
+          let g1 := tset g d (zip_pop nd1) in
+          let '(g', p', r', l') := rdeliver f g1 p d tup in (g', p', r', log ++ l')
+        else (tset g d nd1, p, false, log)
+      else (g, p, true, log)
+  | TCombine =>
+      if mem n (t_ups nd) then
+        let last' := set_at (index_nat n (t_ups nd)) (Some x) (t_last nd) in
+        let g1 := tset g d (with_last nd last') in
+        match all_some_v last' with
+        | Some vs => let '(g', p', r', l') := rdeliver f g1 p d (VTup vs) in (g', p', r', log ++ l')
+        | None => (g1, p, false, log)
+        end
+      else (g, p, true, log)
+  | TCombineOn t =>
+      if mem n (t_ups nd) then
+        let last' := set_at (index_nat n (t_ups nd)) (Some x) (t_last nd) in
+        let g1 := tset g d (with_last nd last') in
+        match all_some_v last' with
+        | Some vs =>
+            if n =? t then let '(g', p', r', l') := rdeliver f g1 p d (VTup vs) in (g', p', r', log ++ l')
+            else (g1, p, false, log)
+        | None => (g1, p, false, log)
+        end
+      else (g, p, true, log)
+  end.
+
+Lemma rdeliver_S f g p n x :
+  rdeliver (S f) g p n x = fold_left (rstep f n x) (t_downs (tget g n)) (g, p, false, []).
+Proof. reflexivity. Qed.
+
+(* the pending edit stays legal as long as only per-input state changes *)
+Definition pend_ok (g : tgraph) (p : rpend) : Prop :=
+  match p with None => True | Some (_, e) => wf_edit g e end.
+
+(* how the graph can change during such an emission: only per-input state (frame), or per-input state, then
+   THE edit, then per-input state *)
+Inductive evolve (g : tgraph) (p : rpend) (g' : tgraph) (p' : rpend) : Prop :=
+| ev_frame : p' = p -> frame g g' -> evolve g p g' p'
+| ev_edit t e g1 : p = Some (t, e) -> p' = None -> frame g g1 -> TInv0 g1 -> wf_edit g1 e ->
+    frame (fst (fst (tedit0 g1 e))) g' -> evolve g p g' p'.
+
+Lemma evolve_refl g p : evolve g p g p.
+Proof. apply ev_frame; auto. apply frame_refl. Qed.
+
+Lemma evolve_trans g p g1 p1 g2 p2 : evolve g p g1 p1 -> evolve g1 p1 g2 p2 -> evolve g p g2 p2.
+Proof.
+  intros [E1 F1|t e ga E1 E1' F1 I1 W1 F1'] [E2 F2|t2 e2 gb E2 E2' F2 I2 W2 F2'].
+  - apply ev_frame; [congruence|eapply frame_trans; eauto].
+  - subst p1. apply (ev_edit g p g2 p2 t2 e2 gb); auto. eapply frame_trans; eauto.
+  - apply (ev_edit g p g2 p2 t e ga); auto; [congruence|eapply frame_trans; eauto].
+  - congruence.
+Qed.
+
+Lemma evolve_frame_l g p g1 g' p' : frame g g1 -> evolve g1 p g' p' -> evolve g p g' p'.
+Proof. intros F E. eapply evolve_trans; [apply ev_frame; eauto|eauto]. Qed.
+
+Lemma pend_ok_frame g g' p : frame g g' -> pend_ok g p -> pend_ok g' p.
+Proof. destruct p as [[t e]|]; simpl; auto. apply wf_edit_frame. Qed.
+
+Lemma TInv0_tset g d nd :
+  TInv0 g -> same_shape (tget g d) nd -> (alive g d -> ndata nd) -> (alive g d -> nnw nd) -> TInv0 (tset g d nd).
+Proof.
+  intros [Sh Da Nw] S Hd Hn. constructor.
+  - eapply TShape_frame; [apply frame_tset; eauto|auto].
+  - apply TData_tset; auto.
+  - intros i Hi. destruct (Nat.eq_dec d i) as [->|N].
+    + destruct (lt_dec i (length g)).
+      * rewrite tget_tset_eq; auto. apply Hn.
+        unfold alive in *. rewrite tget_tset_eq in Hi; auto. destruct S as (?&?&?&?&?&?); congruence.
+      * rewrite tset_overflow in * by lia. auto.
+    + unfold alive in *. rewrite tget_tset_neq in *; auto.
+Qed.
+
+Definition rspec (f : nat) : Prop :=
+  forall g p n x g' p' r log, TInv0 g -> pend_ok g p -> rdeliver f g p n x = (g', p', r, log) ->
+  TInv0 g' /\ pend_ok g' p' /\ evolve g p g' p'.
+
+Lemma rstep_spec f n x ga pa ra la d g' p' r' l' :
+  rspec f -> TInv0 ga -> pend_ok ga pa -> rstep f n x (ga, pa, ra, la) d = (g', p', r', l') ->
+  TInv0 g' /\ pend_ok g' p' /\ evolve ga pa g' p'.
+Proof.
+  intros IH I P E. unfold rstep in E. destruct ra.
+  { inversion E; subst. auto using evolve_refl. }
+  destruct (tk (tget ga d)) eqn:K.
+  - (* pipe *)
+    destruct (rdeliver f ga pa d x) as [[[g2 p2] r2] l2] eqn:E2. inversion E; subst. eapply IH; eauto.
+  - inversion E; subst. auto using evolve_refl.
+  - (* zip *)
+    set (nd := tget ga d) in *.
+    destruct (mem n (map fst (t_bufs nd))) eqn:M; [|inversion E; subst; auto using evolve_refl].
+    apply mem_spec in M.
+    set (L := buf_get n (t_bufs nd) ++ [x]) in *.
+    set (nd1 := with_bufs nd (buf_set n L (t_bufs nd))) in *.
+    assert (Keq : map fst (buf_set n L (t_bufs nd)) = keys nd) by (apply keys_buf_set_in; auto).
+    assert (Hk : alive ga d -> NoDup (keys nd) /\ forall u, In u (keys nd) <-> In u (t_ups nd)).
+    { intros Ad. destruct (i_data _ I d Ad) as (_ & Hz). apply Hz; auto. }
+    destruct ((length L =? 1) && zip_ready nd1) eqn:C.
+    + apply andb_true_iff in C. destruct C as [C1 C2]. apply Nat.eqb_eq in C1.
+      destruct (rdeliver f (tset ga d (zip_pop nd1)) pa d (VTup (zip_heads nd1))) as [[[g2 p2] r2] l2] eqn:E2.
+      inversion E; subst.
+      assert (SS : same_shape (tget ga d) (zip_pop nd1)) by (unfold same_shape; simpl; auto 10).
+      assert (I1 : TInv0 (tset ga d (zip_pop nd1))).
+      { apply TInv0_tset; auto.
+        - intros Ad. destruct (Hk Ad) as (Nk & Hk'). split; simpl; [fold nd; nocomb|]. intros _. unfold keys. simpl.
+          change (fun kb : nat * list val => (fst kb, tl (snd kb))) with popf.
+          rewrite keys_pop, Keq. auto.
+        - intros Ad _. destruct (Hk Ad) as (Nk & Hk'). apply zip_ready_false. right. exists n. split; [apply Hk'; exact M|].
+          simpl. change (fun kb : nat * list val => (fst kb, tl (snd kb))) with popf.
+          rewrite buf_get_pop, buf_get_set_eq.
+          unfold L in *. destruct (buf_get n (t_bufs nd)); simpl in *; auto.
+          rewrite app_length in C1. simpl in C1. lia. }
+      assert (F1 : frame ga (tset ga d (zip_pop nd1))) by (apply frame_tset; auto).
+      destruct (IH _ _ _ _ _ _ _ _ I1 (pend_ok_frame _ _ _ F1 P) E2) as (I2 & P2 & Ev2).
+      split; auto. split; auto. eapply evolve_frame_l; eauto.
+    + inversion E; subst.
+      assert (SS : same_shape (tget ga d) nd1) by (unfold same_shape; simpl; auto 10).
+      assert (F1 : frame ga (tset ga d nd1)) by (apply frame_tset; auto).
+      split; [|split; [eapply pend_ok_frame; eauto|apply ev_frame; auto]].
+      apply TInv0_tset; auto.
+      * intros Ad. destruct (Hk Ad) as (Nk & Hk'). split; simpl; [fold nd; nocomb|]. intros _. unfold keys. simpl.
+        rewrite Keq. auto.
+      * intros Ad _. destruct (Hk Ad) as (Nk & Hk'). apply andb_false_iff in C. destruct C as [C|C]; auto.
+        apply Nat.eqb_neq in C.
+        assert (Hold : buf_get n (t_bufs nd) <> []).
+        { intros E0. apply C. unfold L. rewrite E0. auto. }
+        assert (R : zip_ready nd = false) by (apply (i_nw _ I d Ad K)).
+        apply zip_ready_false in R. apply zip_ready_false. simpl.
+        destruct R as [R | (u & Hu & Eu)]; auto. right. exists u. split; auto.
+        rewrite buf_get_set_neq; auto. intros <-. auto.
+  - (* combine_latest *)
+    set (nd := tget ga d) in *.
+    destruct (mem n (t_ups nd)) eqn:M; [|inversion E; subst; auto using evolve_refl].
+    set (last' := set_at (index_nat n (t_ups nd)) (Some x) (t_last nd)) in *.
+    assert (SS : same_shape (tget ga d) (with_last nd last')) by (unfold same_shape; simpl; auto 10).
+    assert (F1 : frame ga (tset ga d (with_last nd last'))) by (apply frame_tset; auto).
+    assert (I1 : TInv0 (tset ga d (with_last nd last'))).
+    { apply TInv0_tset; auto.
+      - intros Ad. split; simpl; [|fold nd; congruence]. intros _. unfold last'. rewrite set_at_length.
+        destruct (i_data _ I d Ad) as (Hc & _). apply Hc; auto. fold nd. rewrite K. reflexivity.
+      - intros _ K'. simpl in K'. fold nd in K'. congruence. }
+    destruct (all_some_v last') as [vs|].
+    + destruct (rdeliver f (tset ga d (with_last nd last')) pa d (VTup vs)) as [[[g2 p2] r2] l2] eqn:E2.
+      inversion E; subst.
+      destruct (IH _ _ _ _ _ _ _ _ I1 (pend_ok_frame _ _ _ F1 P) E2) as (I2 & P2 & Ev2).
+      split; auto. split; auto. eapply evolve_frame_l; eauto.
+    + inversion E; subst. split; auto. split; [eapply pend_ok_frame; eauto|apply ev_frame; auto].
+  - (* reactive sink *)
+    destruct pa as [[t e]|]; [|inversion E; subst; auto using evolve_refl].
+    destruct (t =? d); [|inversion E; subst; auto using evolve_refl].
+    simpl in P. rewrite (apply_edit_wf _ _ P) in E.
+    destruct (tedit0 ga e) as [[g2 r2] l2] eqn:E2. inversion E; subst.
+    destruct (edit0_ok ga e I P) as (I2 & _). rewrite E2 in I2. cbn [fst] in I2.
+    split; auto. split; [exact Logic.I|].
+    eapply ev_edit; eauto using frame_refl. rewrite E2. apply frame_refl.
+  - (* combine_latest with an explicit emit_on *)
+    set (nd := tget ga d) in *.
+    destruct (mem n (t_ups nd)) eqn:M; [|inversion E; subst; auto using evolve_refl].
+    set (last' := set_at (index_nat n (t_ups nd)) (Some x) (t_last nd)) in *.
+    assert (SS : same_shape (tget ga d) (with_last nd last')) by (unfold same_shape; simpl; auto 10).
+    assert (F1 : frame ga (tset ga d (with_last nd last'))) by (apply frame_tset; auto).
+    assert (I1 : TInv0 (tset ga d (with_last nd last'))).
+    { apply TInv0_tset; auto.
+      - intros Ad. split; simpl; [|fold nd; congruence]. intros _. unfold last'. rewrite set_at_length.
+        destruct (i_data _ I d Ad) as (Hc & _). apply Hc; auto. fold nd. rewrite K. reflexivity.
+      - intros _ K'. simpl in K'. fold nd in K'. congruence. }
+    destruct (all_some_v last') as [vs|]; [destruct (n =? trig)|].
+    + destruct (rdeliver f (tset ga d (with_last nd last')) pa d (VTup vs)) as [[[g2 p2] r2] l2] eqn:E2.
+      inversion E; subst.
+      destruct (IH _ _ _ _ _ _ _ _ I1 (pend_ok_frame _ _ _ F1 P) E2) as (I2 & P2 & Ev2).
+      split; auto. split; auto. eapply evolve_frame_l; eauto.
+    + inversion E; subst. split; auto. split; [eapply pend_ok_frame; eauto|apply ev_frame; auto].
+    + inversion E; subst. split; auto. split; [eapply pend_ok_frame; eauto|apply ev_frame; auto].
+Qed.
+
+Lemma rfold_spec f n x : rspec f ->
+  forall l ga pa ra la g' p' r' l', TInv0 ga -> pend_ok ga pa ->
+  fold_left (rstep f n x) l (ga, pa, ra, la) = (g', p', r', l') ->
+  TInv0 g' /\ pend_ok g' p' /\ evolve ga pa g' p'.
+Proof.
+  intros IH. induction l as [|d l IHl]; intros ga pa ra la g' p' r' l' I P E; cbn [fold_left] in E.
+  - inversion E; subst. auto using evolve_refl.
+  - destruct (rstep f n x (ga, pa, ra, la) d) as [[[g1 p1] r1] l1] eqn:E1.
+    destruct (rstep_spec _ _ _ _ _ _ _ _ _ _ _ _ IH I P E1) as (I1 & P1 & Ev1).
+    destruct (IHl _ _ _ _ _ _ _ _ I1 P1 E) as (I2 & P2 & Ev2).
+    split; auto. split; auto. eapply evolve_trans; eauto.
+Qed.
+
+Lemma rdeliver_rspec : forall f, rspec f.
+Proof.
+  induction f as [|f IH]; intros g p n x g' p' r log I P E.
+  - simpl in E. inversion E; subst. auto using evolve_refl.
+  - rewrite rdeliver_S in E. eapply rfold_spec; eauto.
+Qed.
+
+Lemma evolve_flags g p g' p' : evolve g p g' p' ->
+  length g' = length g /\
+  forall i, t_alive (tget g' i) = t_alive (tget g i) /\ tk (tget g' i) = tk (tget g i) /\
+            t_held (tget g' i) = t_held (tget g i) /\
+            (t_reg (tget g' i) = t_reg (tget g i) \/ exists t, p = Some (t, EDestroy i)).
+Proof.
+  intros [E1 F1|t e g1 E1 E1' F1 I1 W1 F1'].
+  - split; [symmetry; apply F1|]. intros i.
+    rewrite (fr_alive _ _ _ F1), (fr_tk _ _ _ F1), (fr_held _ _ _ F1), (fr_reg _ _ _ F1). auto.
+  - destruct (edit0_ok g1 e I1 W1) as (_ & L & H).
+    split; [rewrite <- (proj1 F1'), L; symmetry; apply F1|]. intros i.
+    rewrite (fr_alive _ _ _ F1'), (fr_tk _ _ _ F1'), (fr_held _ _ _ F1'), (fr_reg _ _ _ F1').
+    destruct (H i) as (a & b & c & d). rewrite a, b, c.
+    rewrite (fr_alive _ _ _ F1), (fr_tk _ _ _ F1), (fr_held _ _ _ F1).
+    repeat split; auto. destruct d as [d|d].
+    + left. rewrite d. apply (fr_reg _ _ _ F1).
+    + right. exists t. congruence.
+Qed.
+
+(* ================================================================================================ *)
+(* Part 5: legal histories                                                                           *)
+(* ================================================================================================ *)
+
+(* what a program can do, in histories without parallel edges.  A re-entrant edit (ORemit) is an edit the program
+   could also make between two emissions; the reference-counting collector is modelled at the end of a step, so the
+   model covers the emissions whose edit frees nothing while the element is still in flight *)
 Definition wf_op (g : tgraph) (o : top) : Prop :=
   match o with
   | ONew k ups =>
-      NoDup ups /\ (forall u, In u ups -> held_node g u /\ tk (tget g u) <> TSink) /\
-      match k with TPipe => True | TSink => length ups = 1 | TZip | TCombine => ups <> [] end
+      NoDup ups /\ (forall u, In u ups -> held_node g u /\ sinkb (tk (tget g u)) = false) /\
+      match k with
+      | TPipe => True
+      | TSink | TRSink => length ups = 1
+      | TZip | TCombine => ups <> []
+      | TCombineOn t => match ups with u :: _ => u = t | [] => False end   (* emit_on = the first input *)
+      end
   | OEmit n _ => held_node g n
-  | OConnect u d =>
-      held_node g u /\ held_node g d /\ u < d /\ ~ In u (t_ups (tget g d)) /\ tk (tget g u) <> TSink
-  | ODisconnect u d => held_node g u /\ held_node g d
-  | ODestroy n => held_node g n /\ ~ (tk (tget g n) = TSink /\ t_reg (tget g n) = false)
+  | OConnect u d => wf_edit g (EConnect u d)
+  | ODisconnect u d => wf_edit g (EDisconnect u d)
+  | ODestroy n => wf_edit g (EDestroy n)
   | ODrop n => held_node g n
+  | ORemit n _ t e =>
+      held_node g n /\ held_node g t /\ tk (tget g t) = TRSink /\ wf_edit g e /\
+      (forall i, alive g i -> alive (collect (fst (fst (tedit0 g e)))) i)
   end.
 
 Definition step_g (g : tgraph) (o : top) : tgraph := fst (fst (tstep g o)).
@@ -1297,9 +1723,6 @@ Lemma tstep0_disconnect g u d :
   else (g, RRaise, []).
 Proof. reflexivity. Qed.
 
-Definition destroy_g (g : tgraph) (n : nat) : tgraph :=
-  let g1 := destroy_fold g n (t_ups (tget g n)) in
-  tset g1 n (with_flags (tget g1 n) (t_held (tget g1 n)) false (t_alive (tget g1 n))).
 Definition drop_g (g : tgraph) (n : nat) : tgraph :=
   tset g n (with_flags (tget g n) false (t_reg (tget g n)) (t_alive (tget g n))).
 
@@ -1315,17 +1738,32 @@ Lemma tstep0_emit g n x :
   tstep0 g (OEmit n x) = let '(g', l) := temit (S (length g)) g n x in (g', ROk, l).
 Proof. reflexivity. Qed.
 
+Lemma tstep0_remit g n x t e :
+  tstep0 g (ORemit n x t e) =
+  let '(g', _, r, l) := rdeliver (S (length g)) g (Some (t, e)) n x in (g', if r then RRaise else ROk, l).
+Proof. reflexivity. Qed.
+
+(* the step un-registers node i (a destroy, also one made from inside a callback) *)
+Definition destroys (o : top) (i : nat) : Prop :=
+  o = ODestroy i \/ exists n x t, o = ORemit n x t (EDestroy i).
+
 (* flags of the nodes that were alive before the step (before collection) *)
 Definition flags_step (g g' : tgraph) (o : top) : Prop :=
   forall i, alive g i ->
     t_alive (tget g' i) = true /\ tk (tget g' i) = tk (tget g i) /\
-    (t_reg (tget g' i) = t_reg (tget g i) \/ o = ODestroy i) /\
+    (t_reg (tget g' i) = t_reg (tget g i) \/ destroys o i) /\
     (t_held (tget g' i) = t_held (tget g i) \/ o = ODrop i).
 
 Lemma flags_kept_step g g' o : flags_kept g g' -> flags_step g g' o.
 Proof.
   intros [_ H] i Ai. destruct (H i) as (a & b & c & d). unfold alive in Ai.
   rewrite a, b, c, d. auto.
+Qed.
+
+Lemma flags_edit_step g g' e o : flags_edit g g' e -> (forall i, e = EDestroy i -> destroys o i) -> flags_step g g' o.
+Proof.
+  intros [_ H] Hd i Ai. destruct (H i) as (a & b & c & d). unfold alive in Ai.
+  rewrite a, b, c. repeat split; auto. destruct d; auto.
 Qed.
 
 Lemma tget_tset_same_flags g n nd i :
@@ -1343,12 +1781,13 @@ Lemma step0_ok g o :
   TInv0 g -> wf_op g o ->
   TInv0 (fst (fst (tstep0 g o))) /\ flags_step g (fst (fst (tstep0 g o))) o.
 Proof.
-  intros I W. destruct o as [k ups|n x|u d|u d|n|n].
+  intros I W. destruct o as [k ups|n x|u d|u d|n|n|n x t e].
   - (* new *)
     rewrite tstep0_new. cbn [fst]. destruct W as (Nd & Hu & Hk).
     assert (Hal : forall u, In u ups -> alive g u) by (intros u H; apply Hu in H; apply H).
     split.
-    + apply new_inv; auto. intros ->. auto.
+    + apply new_inv; auto; [intros ->; auto|].
+      intros t ->. destruct ups as [|u0 ups0]; [tauto|]. subst. left; auto.
     + destruct (new_g_spec g k ups (i_shape _ I) Nd Hal) as (L & Gn & Gu & Go).
       intros i Ai. pose proof (alive_lt _ _ Ai). unfold alive in Ai.
       destruct (in_dec Nat.eq_dec i ups).
@@ -1361,46 +1800,27 @@ Proof.
     + apply flags_kept_step. apply frame_flags_kept.
       destruct I as [Sh Da Nw]. eapply (temit_espec _ g n x Sh Da (TNW_above _ Nw n) An); eauto.
   - (* connect *)
-    rewrite tstep0_connect. cbn [fst]. destruct W as ((_ & Au & _) & (_ & Ad & _) & Lt & Hn & _).
-    destruct (connect_inv g u d I Au Ad Lt Hn). split; auto. apply flags_kept_step; auto.
+    destruct (edit0_ok g (EConnect u d) I W) as (I' & Fl). split; auto.
+    eapply flags_edit_step; eauto. discriminate.
   - (* disconnect *)
-    rewrite tstep0_disconnect. destruct W as ((_ & Au & _) & (_ & Ad & _)).
-    destruct (mem d (t_downs (tget g u))) eqn:M.
-    + apply mem_spec in M. cbv zeta. destruct I as [Sh Da Nw].
-      destruct (disconnect_raw g u d Sh Da Au Ad M) as (Sh1 & Da1 & Fl1 & Nw1 & _).
-      set (g2 := disconnect_g g u d) in *.
-      assert (Nw2 : forall i, i <> d -> alive g2 i -> nnw (tget g2 i)).
-      { intros i Ni Ai. apply Nw1; auto. apply Nw. apply (flags_kept_alive _ _ _ Fl1); auto. }
-      assert (Ad2 : alive g2 d) by (apply (flags_kept_alive _ _ _ Fl1); auto).
-      assert (NZ : tk (tget g2 d) <> TZip -> TInv0 g2 /\ flags_step g g2 (ODisconnect u d)).
-      { intros K. split; [|apply flags_kept_step; auto]. constructor; auto.
-        intros i Ai. destruct (Nat.eq_dec i d) as [->|]; auto. intros K'. congruence. }
-      destruct (tk (tget g2 d)) eqn:K; try (cbn [fst]; apply NZ; congruence).
-      destruct (zip_drain (S (btotal (t_bufs (tget g2 d)))) g2 d) as [g3 l] eqn:E. cbn [fst].
-      destruct (zip_drain_spec _ g2 d Sh1 Da1 Nw2 Ad2 (Nat.lt_succ_diag_r _) _ _ E) as (F & Da3 & Nw3).
-      split.
-      * constructor; auto. eapply TShape_frame; eauto.
-      * apply flags_kept_step. eapply flags_kept_trans; eauto. apply frame_flags_kept; auto.
-    + cbn [fst]. split; auto. apply flags_kept_step. apply flags_kept_refl.
+    destruct (edit0_ok g (EDisconnect u d) I W) as (I' & Fl). split; auto.
+    eapply flags_edit_step; eauto. discriminate.
   - (* destroy *)
-    rewrite tstep0_destroy. cbn [fst]. destruct W as ((_ & An & Hn) & _). destruct I as [Sh Da Nw].
-    destruct (destroy_fold_spec n _ g Sh Da An eq_refl) as (Sh1 & Da1 & Fl1 & Nw1 & Up1 & _).
-    unfold destroy_g. set (g1 := destroy_fold g n (t_ups (tget g n))) in *. cbv zeta.
-    split.
-    + apply flags_inv. constructor; auto.
-      intros i Ai. destruct (Nat.eq_dec i n) as [->|N].
-      * intros _. apply zip_ready_false. auto.
-      * apply Nw1; auto. apply Nw. apply (flags_kept_alive _ _ _ Fl1); auto.
-    + intros i Ai. destruct Fl1 as [L1 H1]. destruct (H1 i) as (a & b & c & e). unfold alive in Ai.
-      destruct (Nat.eq_dec n i) as [->|N].
-      * rewrite tget_tset_eq by (rewrite L1; apply alive_lt; auto). simpl. rewrite a, b, e. auto.
-      * rewrite tget_tset_neq by auto. rewrite a, b, c, e. auto.
+    destruct (edit0_ok g (EDestroy n) I W) as (I' & Fl). split; auto.
+    eapply flags_edit_step; eauto. intros i Ei. inversion Ei; subst. left; auto.
   - (* drop *)
     rewrite tstep0_drop. cbn [fst]. split.
     + apply flags_inv; auto.
     + intros i Ai. unfold drop_g. unfold alive in Ai. destruct (Nat.eq_dec n i) as [->|N].
       * rewrite tget_tset_eq by (apply alive_lt; auto). simpl. auto.
       * rewrite tget_tset_neq by auto. auto.
+  - (* an emission with an edit made from inside a callback *)
+    rewrite tstep0_remit. destruct W as (_ & _ & _ & We & _).
+    destruct (rdeliver (S (length g)) g (Some (t, e)) n x) as [[[g' p'] r] l] eqn:E. cbn [fst].
+    destruct (rdeliver_rspec _ g (Some (t, e)) _ _ _ _ _ _ I We E) as (I' & _ & Ev). split; auto.
+    destruct (evolve_flags _ _ _ _ Ev) as (_ & H). intros i Ai. destruct (H i) as (a & b & c & d).
+    unfold alive in Ai. rewrite a, b, c. repeat split; auto.
+    destruct d as [d|(t0 & d)]; auto. right. right. inversion d; subst. eauto.
 Qed.
 
 Theorem step_inv g o : TInv0 g -> wf_op g o -> TInv0 (step_g g o).
@@ -1445,11 +1865,11 @@ Proof.
 Qed.
 
 Lemma more_of_ext g1 g K :
-  (forall i, In i K -> t_ups (tget g1 i) = t_ups (tget g i)) -> more_of g1 K = more_of g K.
+  (forall i, In i K -> t_refs (tget g1 i) = t_refs (tget g i)) -> more_of g1 K = more_of g K.
 Proof. intros H. unfold more_of. apply flat_map_ext_in. intros i Hi. rewrite H; auto. Qed.
 
 Lemma keep_ext g1 g : forall f K,
-  (forall i, In i (keep f g K) -> t_ups (tget g1 i) = t_ups (tget g i)) -> keep f g1 K = keep f g K.
+  (forall i, In i (keep f g K) -> t_refs (tget g1 i) = t_refs (tget g i)) -> keep f g1 K = keep f g K.
 Proof.
   induction f as [|f IH]; intros K H; auto.
   assert (E : more_of g1 K = more_of g K).
@@ -1577,10 +1997,12 @@ Proof.
   { rewrite step_g_eq. destruct (step0_ok g o I W) as (I0 & Fl).
     apply collect_alive; [apply I0|]. apply kept_roots.
     destruct (Fl s As) as (a & _ & b & c). unfold is_root. rewrite a. cbn [andb].
-    destruct b as [b|b].
+    destruct b as [b|[b|(n0 & x0 & t0 & b)]].
     - rewrite b, Rs. apply orb_true_r.
     - subst o. destruct c as [c|c]; [|discriminate]. rewrite c.
-      destruct W as ((_ & _ & H) & _). rewrite H. reflexivity. }
+      destruct W as ((_ & _ & H) & _). rewrite H. reflexivity.
+    - subst o. destruct c as [c|c]; [|discriminate]. rewrite c.
+      destruct W as (_ & _ & _ & ((_ & _ & H) & _) & _). rewrite H. reflexivity. }
   split; auto. pose proof (step_inv g o I W) as [Sh _ _].
   assert (CL : forall a b, clos_refl_trans nat (fun a b => In b (t_ups (tget (step_g g o) a))) a b ->
                            alive (step_g g o) a -> alive (step_g g o) b).
@@ -1588,22 +2010,33 @@ Proof.
   intros u H. apply (CL s u H A').
 Qed.
 
+Lemma tk_collect g i : tk (tget (collect g) i) = tk (tget g i).
+Proof. rewrite tget_collect. unfold cnode. destruct (t_alive (tget g i) && mem i (kept g)); reflexivity. Qed.
+
+(* (a stream named by the emit_on of a live combine_latest node is referenced by that node) *)
 Lemma collect_dead g n : TShape g ->
   t_held (tget g n) = false -> t_reg (tget g n) = false -> t_downs (tget g n) = [] ->
+  (forall j t, alive g j -> tk (tget g j) = TCombineOn t -> t <> n) ->
   t_alive (tget (collect g) n) = false.
 Proof.
-  intros Sh H1 H2 H3. destruct (t_alive (tget (collect g) n)) eqn:E; auto. exfalso.
+  intros Sh H1 H2 H3 H4. destruct (t_alive (tget (collect g) n)) eqn:E; auto. exfalso.
   apply collect_alive in E; auto. apply keep_from in E. destruct E as [E|(j & Hj & Hu)].
   - apply roots_In in E. unfold is_root in E. rewrite H1, H2, andb_false_r in E. discriminate.
-  - apply (s_up _ Sh n j (kept_alive g Sh j Hj)) in Hu. rewrite H3 in Hu. destruct Hu as (_ & []).
+  - pose proof (kept_alive g Sh j Hj) as Aj. unfold t_refs in Hu. apply in_app_iff in Hu. destruct Hu as [Hu|Hu].
+    + apply (s_up _ Sh n j Aj) in Hu. rewrite H3 in Hu. destruct Hu as (_ & []).
+    + destruct (tk (tget g j)) eqn:K; simpl in Hu; try tauto. destruct Hu as [->|[]]. apply (H4 j n Aj K). auto.
 Qed.
 
 Theorem destroyed_and_dropped_dies g n :
   TInv0 g -> wf_op g (ODestroy n) -> t_downs (tget g n) = [] ->
+  (forall j t, tk (tget g j) = TCombineOn t -> t <> n) ->
   wf_op (step_g g (ODestroy n)) (ODrop n) /\
   t_alive (tget (step_g (step_g g (ODestroy n)) (ODrop n)) n) = false.
 Proof.
-  intros I W Hd. pose proof W as ((Ln & An & Hn) & _).
+  intros I W Hd Htr. pose proof W as ((Ln & An & Hn) & _).
+  assert (TK1 : forall j, tk (tget (step_g g (ODestroy n)) j) = tk (tget g j)).
+  { intros j. rewrite step_g_eq, tk_collect. destruct (edit0_ok g (EDestroy n) I W) as (_ & _ & H).
+    change (tstep0 g (ODestroy n)) with (tedit0 g (EDestroy n)). apply H. }
   destruct (step0_ok g _ I W) as (I0 & Fl). rewrite tstep0_destroy in I0, Fl. cbn [fst] in I0, Fl.
   destruct I as [Sh Da Nw].
   destruct (destroy_fold_spec n _ g Sh Da An eq_refl) as (_ & _ & (L1 & _) & _ & _ & Dn1).
@@ -1633,15 +2066,27 @@ Proof.
   rewrite step_g_eq, tstep0_drop. cbn [fst]. 
   assert (N2 : tget (drop_g g1 n) n = with_flags (tget g1 n) false (t_reg (tget g1 n)) (t_alive (tget g1 n))).
   { unfold drop_g. rewrite tget_tset_eq; auto. lia. }
-  apply collect_dead; [apply I2| | |]; rewrite N2, G1; simpl; auto.
-  rewrite Nd. reflexivity.
+  apply collect_dead; [apply I2| | | |]; try (rewrite N2, G1; simpl; auto).
+  - rewrite Nd. reflexivity.
+  - intros j t _ Kj. apply (Htr j t). rewrite <- TK1. fold g1.
+    destruct (tget_tset_flags g1 n false (t_reg (tget g1 n)) j) as (_ & Hk & _). unfold drop_g in Kj.
+    rewrite <- Hk. exact Kj.
 Qed.
 
 (* 5 *)
 Theorem combine_aligned g : reachable g ->
   forall i, t_alive (tget g i) = true -> tk (tget g i) = TCombine ->
   length (t_last (tget g i)) = length (t_ups (tget g i)).
-Proof. intros R i Ai K. apply (i_data _ (reachable_inv g R) i Ai); auto. Qed.
+Proof. intros R i Ai K. apply (i_data _ (reachable_inv g R) i Ai); auto. rewrite K. reflexivity. Qed.
+
+Theorem combine_on_aligned g : reachable g ->
+  forall i t, t_alive (tget g i) = true -> tk (tget g i) = TCombineOn t ->
+  length (t_last (tget g i)) = length (t_ups (tget g i)) /\ t_alive (tget g t) = true.
+Proof.
+  intros R i t Ai K. pose proof (reachable_inv g R) as I. split.
+  - apply (i_data _ I i Ai); auto. rewrite K. reflexivity.
+  - apply (s_trig _ (i_shape _ I) i t Ai K).
+Qed.
 
 Theorem zip_keys g : reachable g ->
   forall i, t_alive (tget g i) = true -> tk (tget g i) = TZip ->
@@ -1684,17 +2129,26 @@ Proof.
   - apply IH. apply andb_true_iff in H. tauto.
 Qed.
 
-Definition heldb (g : tgraph) (n : nat) : bool :=
-  (n <? length g) && t_alive (tget g n) && t_held (tget g n).
-Lemma heldb_sound g n : heldb g n = true -> held_node g n.
+Definition wf_editb (g : tgraph) (e : tedit) : bool :=
+  match e with
+  | EConnect u d =>
+      heldb g u && heldb g d && (u <? d) && negb (mem u (t_ups (tget g d))) && negb (sinkb (tk (tget g u)))
+  | EDisconnect u d => heldb g u && heldb g d
+  | EDestroy n => heldb g n && negb (sinkb (tk (tget g n)) && negb (t_reg (tget g n)))
+  end.
+
+Lemma wf_editb_sound g e : wf_editb g e = true -> wf_edit g e.
 Proof.
-  unfold heldb, held_node. intros H. apply andb_true_iff in H. destruct H as [H H3].
-  apply andb_true_iff in H. destruct H as [H1 H2]. apply Nat.ltb_lt in H1. auto.
+  destruct e as [u d|u d|n]; simpl; intros H.
+  - do 4 (apply andb_true_iff in H; destruct H as [H ?]). fold (heldb g u) in H.
+    split; [apply heldb_sound; auto|]. split; [apply heldb_sound; auto|]. split; [apply Nat.ltb_lt; auto|].
+    split; [apply mem_false; apply negb_true_iff; auto|]. apply negb_true_iff; auto.
+  - apply andb_true_iff in H. destruct H. split; apply heldb_sound; auto.
+  - apply andb_true_iff in H. destruct H as [H1 H2]. split; [apply heldb_sound; auto|].
+    intros [K R]. rewrite K, R in H2. discriminate.
 Qed.
 
-Definition sinkb (k : tkind) : bool := match k with TSink => true | _ => false end.
-Lemma sinkb_false k : sinkb k = false -> k <> TSink.
-Proof. destruct k; simpl; congruence. Qed.
+Definition rsinkb (k : tkind) : bool := match k with TRSink => true | _ => false end.
 
 Definition wf_opb (g : tgraph) (o : top) : bool :=
   match o with
@@ -1702,36 +2156,41 @@ Definition wf_opb (g : tgraph) (o : top) : bool :=
       nodupb ups && forallb (fun u => heldb g u && negb (sinkb (tk (tget g u)))) ups &&
       match k with
       | TPipe => true
-      | TSink => length ups =? 1
-      | _ => negb (match ups with [] => true | _ => false end)
+      | TSink | TRSink => length ups =? 1
+      | TZip | TCombine => negb (match ups with [] => true | _ => false end)
+      | TCombineOn t => match ups with u :: _ => u =? t | [] => false end
       end
   | OEmit n _ => heldb g n
-  | OConnect u d =>
-      heldb g u && heldb g d && (u <? d) && negb (mem u (t_ups (tget g d))) && negb (sinkb (tk (tget g u)))
-  | ODisconnect u d => heldb g u && heldb g d
-  | ODestroy n => heldb g n && negb (sinkb (tk (tget g n)) && negb (t_reg (tget g n)))
+  | OConnect u d => wf_editb g (EConnect u d)
+  | ODisconnect u d => wf_editb g (EDisconnect u d)
+  | ODestroy n => wf_editb g (EDestroy n)
   | ODrop n => heldb g n
+  | ORemit n _ t e =>
+      heldb g n && heldb g t && rsinkb (tk (tget g t)) && wf_editb g e &&
+      forallb (fun i => negb (t_alive (tget g i)) || t_alive (tget (collect (fst (fst (tedit0 g e)))) i)) (seq 0 (length g))
   end.
 
 Lemma wf_opb_sound g o : wf_opb g o = true -> wf_op g o.
 Proof.
-  destruct o as [k ups|n x|u d|u d|n|n]; simpl; intros H.
+  destruct o as [k ups|n x|u d|u d|n|n|n x t e]; try (apply wf_editb_sound); simpl; intros H.
   - apply andb_true_iff in H. destruct H as [H H3]. apply andb_true_iff in H. destruct H as [H1 H2].
     split; [apply nodupb_sound; auto|]. split.
     + intros u Hu. rewrite forallb_forall in H2. specialize (H2 u Hu). apply andb_true_iff in H2.
-      destruct H2 as [A B]. split; [apply heldb_sound; auto|]. apply sinkb_false. apply negb_true_iff; auto.
+      destruct H2 as [A B]. split; [apply heldb_sound; auto|]. apply negb_true_iff; auto.
     + destruct k; auto.
       * apply Nat.eqb_eq; auto.
       * destruct ups; [discriminate|congruence].
       * destruct ups; [discriminate|congruence].
+      * apply Nat.eqb_eq; auto.
+      * destruct ups; [discriminate|apply Nat.eqb_eq; auto].
   - apply heldb_sound; auto.
-  - do 4 (apply andb_true_iff in H; destruct H as [H ?]). fold (heldb g u) in H.
-    split; [apply heldb_sound; auto|]. split; [apply heldb_sound; auto|]. split; [apply Nat.ltb_lt; auto|].
-    split; [apply mem_false; apply negb_true_iff; auto|]. apply sinkb_false. apply negb_true_iff; auto.
-  - apply andb_true_iff in H. destruct H. split; apply heldb_sound; auto.
-  - apply andb_true_iff in H. destruct H as [H1 H2]. split; [apply heldb_sound; auto|].
-    intros [K R]. rewrite K, R in H2. discriminate.
   - apply heldb_sound; auto.
+  - do 4 (apply andb_true_iff in H; destruct H as [H ?]).
+    split; [apply heldb_sound; auto|]. split; [apply heldb_sound; auto|].
+    split; [destruct (tk (tget g t)); simpl in *; congruence|].
+    split; [apply wf_editb_sound; auto|].
+    intros i Ai. rewrite forallb_forall in H0. specialize (H0 i).
+    unfold alive in *. rewrite Ai in H0. simpl in H0. apply H0. apply in_seq. pose proof (alive_lt _ _ Ai). lia.
 Qed.
 
 Fixpoint legalb (g : tgraph) (ops : list top) : bool :=
@@ -1829,7 +2288,7 @@ Proof.
   { unfold roots. rewrite <- (proj1 F). apply filter_ext. intros j. unfold is_root.
     rewrite (fr_alive _ _ _ F), (fr_held _ _ _ F), (fr_reg _ _ _ F). reflexivity. }
   assert (Ek : kept g1 = kept g).
-  { unfold kept. rewrite <- (proj1 F), Er. apply keep_ext. intros j _. apply (fr_ups _ _ _ F). }
+  { unfold kept. rewrite <- (proj1 F), Er. apply keep_ext. intros j _. unfold t_refs. rewrite (fr_ups _ _ _ F), (fr_tk _ _ _ F). reflexivity. }
   assert (H1 : alive (collect g1) i <-> alive g i).
   { rewrite (collect_alive g1 i Sh1), Ek, <- (collect_alive g i Sh), (reachable_collected g R). tauto. }
   unfold alive in H1. destruct (t_alive (tget (collect g1) i)), (t_alive (tget g i)); auto.
